@@ -273,10 +273,11 @@ fn sec_case(c: &SecCase) -> Result<(), Failure> {
 		_ => {
 			let nyq = c.rate1.min(c.rate2) as f64 / 2.0;
 			let cutoff = 100.0 + c.param * (nyq * 0.4 - 100.0);
-			let measure = |mgr: &mut Mgr, rate: u32| -> Result<f64, Failure> {
-				let mut b = TrackBuilder::new();
-				b.add_effect(FilterBuilder::new().mode(FilterMode::LowPass).cutoff(cutoff).resonance(0.0));
-				let mut track = mgr.add_sub_track(b).map_err(|_| Failure::simple("setup", "track"))?;
+			// one filter instance lives through the change
+			let mut b = TrackBuilder::new();
+			b.add_effect(FilterBuilder::new().mode(FilterMode::LowPass).cutoff(cutoff).resonance(0.0));
+			let mut track = mgr.add_sub_track(b).map_err(|_| Failure::simple("setup", "track"))?;
+			let mut measure = |mgr: &mut Mgr, rate: u32| -> Result<f64, Failure> {
 				// a sine at the cutoff frequency, sampled at the device rate
 				let n = (rate as f64 * 0.06) as usize;
 				let frames: Arc<[Frame]> = (0..n).map(|i| Frame::from_mono(0.5 * (std::f64::consts::TAU * cutoff * i as f64 / rate as f64).sin() as f32)).collect::<Vec<_>>().into();
